@@ -15,7 +15,7 @@ class C07(ProgramProperty):
             "strings (URIs around registered prefixes, CURIEs, strings that are both, delimiter-free strings, '', "
             "the delimiter alone) with is_uri, compress, parse_uri, is_curie, expand, parse, "
             "compress_or_standardize, expand_or_standardize, compress_strict, expand_strict, format_curie. "
-            "Non-trivial = some probe is recognised both as URI and as CURIE. Converters are built directly or through histories with warm-up queries, merges and a rejected call.")
+            "Non-trivial = some probe is recognised both as URI and as CURIE. Converters are built directly or through histories with warm-up queries, merges and a rejected call. compress / expand are also called with strict=True and passthrough=True together (must equal the *_strict functions); parse_uri is called the deprecated way (return_none at its default) in a quarter of its calls.")
 
     def exhaustive(self, tier):
         from .. import smallscope
@@ -41,7 +41,9 @@ class C07(ProgramProperty):
                       q(0, "expand", s), q(0, "parse_curie", s), q(0, "parse", s, s=False), q(0, "parse", s, s=True),
                       q(0, "compress_or_standardize", s), q(0, "expand_or_standardize", s),
                       q(0, "compress_strict", s), q(0, "compress", s, s=True),
-                      q(0, "expand_strict", s), q(0, "expand", s, s=True)]
+                      q(0, "expand_strict", s), q(0, "expand", s, s=True),
+                      # "strict" means strict whatever else is passed: the strict calls with passthrough=True as well
+                      q(0, "compress", s, s=True, p=True), q(0, "expand", s, s=True, p=True)]
         steps.append(q(0, "format_curie", "a", "b"))
         steps, how = gen.build_steps(rng, recs, delim, steps)
         _build_tag = "build=" + how
@@ -111,6 +113,12 @@ class C07(ProgramProperty):
             a, b = g("expand_strict", x), g("expand", x, s=True)
             if have(a, b) and a != b:
                 fails.append(f"expand_strict({x!r}) differs from expand(strict=True)")
+            a, b = g("compress_strict", x), g("compress", x, s=True, p=True)
+            if have(a, b) and a != b:
+                fails.append(f"compress_strict({x!r}) differs from compress(strict=True, passthrough=True)")
+            a, b = g("expand_strict", x), g("expand", x, s=True, p=True)
+            if have(a, b) and a != b:
+                fails.append(f"expand_strict({x!r}) differs from expand(strict=True, passthrough=True)")
         return fails
 
 
